@@ -69,7 +69,8 @@ def main():
             dst = os.path.join(VERIF, "seeded", sid)
             os.makedirs(dst, exist_ok=True)
             for f in ["patch.diff", "zz_demo_test.go", "where.txt"]:
-                shutil.copy(os.path.join(src, f), dst)
+                if os.path.abspath(os.path.join(src, f)) != os.path.abspath(os.path.join(dst, f)):
+                    shutil.copy(os.path.join(src, f), dst)
             meta["verified_by_me"] = {
                 "ran": "tools/seed_verify.py: scratch copy of /repo; demo on clean copy (%s), patch applied + go build ./... (%s), demo on patched copy (%s)" % (log.get("demo_clean"), log.get("build"), log.get("demo_patched")),
                 "checks_at_filing": caught,
